@@ -509,7 +509,7 @@ def project_calls(sid, sc, evs, lines, peers):
                 lines.append(dict(ev="Call", msg="tick", account="", result="ok", peer=True, changed=False, crashed=False, **{"from": 0}))
                 continue
             frm = int(c["caller"].split("-")[1]) if c["msg"] == "contribute" and c["caller"].startswith("signer-") and c["caller"].split("-")[1].isdigit() else 0
-            lines.append(dict(ev="Call", msg=e["msg"], account=e["account"], result="ok" if e["result"] == "ok" else "refused", peer=c["caller"] in peers, changed=bool(e["changed"]),
+            lines.append(dict(ev="Call", msg=e["msg"], account=e["account"], result="ok" if e["result"] == "ok" else ("hung" if e["result"] == "hung" else "refused"), peer=c["caller"] in peers, changed=bool(e["changed"]),
                               crashed=bool(e["crashed"]), caller=c["caller"], **{"from": frm}))
 
 
